@@ -138,6 +138,40 @@ func TestVerifC02Status(t *testing.T) {
 	}
 	close(stop)
 	slow.Close()
+	// an answer cut short: status line and headers arrive, the body does not (connection closed early).  The verdict is
+	// in the status line: 410 / 401 / 409 / 503 mean what they mean whether or not the body could be read (seeded/C03h1)
+	cut := httptest.NewTLSServer(http.HandlerFunc(func(w http.ResponseWriter, r *http.Request) {
+		ioutil.ReadAll(r.Body)
+		s := cur.Load().(served)
+		hj, ok := w.(http.Hijacker)
+		if !ok {
+			w.WriteHeader(s.code)
+			return
+		}
+		c, bw, err := hj.Hijack()
+		if err != nil {
+			return
+		}
+		fmt.Fprintf(bw, "HTTP/1.1 %d Verdict\r\nContent-Type: application/json\r\nContent-Length: 64\r\n\r\n{\"exception\":{\"mess", s.code)
+		bw.Flush()
+		c.Close()
+	}))
+	ca3 := filepath.Join(dir, "ca3.pem")
+	ioutil.WriteFile(ca3, pem.EncodeToMemory(&pem.Block{Type: "CERTIFICATE", Bytes: cut.Certificate().Raw}), 0600)
+	cutClient, err := NewClient(&ClientConfig{CAFile: ca3, MaxParallel: 2, Timeout: 5 * time.Second})
+	if err != nil {
+		t.Fatal(err)
+	}
+	chost := strings.TrimPrefix(cut.URL, "https://")
+	for _, code := range []int{200, 202, 400, 401, 403, 408, 409, 410, 413, 429, 500, 503} {
+		cur.Store(served{code, "truncated"})
+		cmd := RpmCmd{Name: CommandMetrics, Collector: chost, RunID: "12345", License: "0123456789012345678901234567890123456789",
+			MaxPayloadSize: 1000000}
+		cs := RpmControls{AgentLanguage: "php", AgentVersion: "1.2.3",
+			Collectible: CollectibleFunc(func(auditVersion bool) ([]byte, error) { return []byte(`["run",1,2,[]]`), nil })}
+		obs = append(obs, c02Class("truncated", code, "truncated", cutClient.Execute(&cmd, cs)))
+	}
+	cut.Close()
 	b, _ := json.Marshal(obs)
 	if err := ioutil.WriteFile(outPath, b, 0644); err != nil {
 		t.Fatal(err)
